@@ -20,9 +20,10 @@ class TokError(Exception):
     pass
 
 
-def tokenize(src):
-    """Return (tokens, trivia) where tokens excludes whitespace and comments.
-    Doc comments are treated as comments (trivia)."""
+def tokenize(src, annot=False):
+    """Return the token list (whitespace and comments excluded; doc comments are comments).
+    With annot=True, block comments of the form /*@ ... @*/ are returned as tokens of kind
+    "annot" whose text is the comment's inner text (used by mirror templates)."""
     toks = []
     i, n = 0, len(src)
     while i < n:
@@ -33,6 +34,12 @@ def tokenize(src):
         if src.startswith("//", i):
             j = src.find("\n", i)
             i = n if j < 0 else j
+            continue
+        if annot and src.startswith("/*@", i):
+            j = src.find("@*/", i)
+            if j < 0:
+                raise TokError("unterminated /*@ annotation at %d" % i)
+            toks.append(Tok("annot", src[i + 3:j], i, j + 3)); i = j + 3
             continue
         if src.startswith("/*", i):
             depth, j = 1, i + 2
